@@ -28,13 +28,15 @@ PROP = dict(
                        "Octo.C12.utf8_roundtrip", "Octo.C12.upper_ascii_spec", "Octo.C12.lower_ascii_spec",
                        "Octo.C12.re_accepts_iff_lang", "Octo.C12.likeSpec_meaning", "Octo.C12.like_error_iff",
                        "Octo.C12.like_spec", "Octo.C12.like_spec_bytes", "Octo.C12.tilde_spec", "Octo.C12.tildeStar_spec",
+                       "Octo.C12.source_needsEscaping", "Octo.C12.source_texts",
                        "Octo.C12.C12_full", "Octo.C12.raw_refuted"],
+    gen=["likeescapes"],   # translator: needsEscaping set, prefix/suffix text, LIKE specials from functions.go's AST
     nontrivial=_nontrivial,
     # the model is silent (`nomodel`) where a trusted library decides: non-ASCII upper/lower, regexps outside the mini language
     corr_skip=lambda op, impl, model: model == "nomodel",
     rule="ops call the real descriptors of functions.FunctionMap(). EXHAUSTIVE part: `like s p` on ALL 361 201 pairs (p, s) with |p| <= 2 and "
-         "|s| <= 2 symbols of the 24-symbol alphabet {a A b % _ \\ . * + ? | ( ) [ ] { } ^ $ \\n é ż 😀 0xff} (thorough: also all |p| = 3 x |s| <= 1 and a "
-         "seeded eighth of |p| = 3 x |s| <= 3 over 8 subject symbols); `tilde`/`tildei` on all <= 2-symbol patterns x 24 subjects (quick: a third of the "
+         "|s| <= 2 symbols of the 24-symbol alphabet {a A b % _ \\ . * + ? | ( ) [ ] { } ^ $ \\n é ż 😀 0xff} (thorough: also a seeded half of |p| = 3 x |s| <= 1 and a "
+         "seeded 48th of |p| = 3 x |s| <= 3 over 8 subject symbols); `tilde`/`tildei` on all <= 2-symbol patterns x 24 subjects (quick: a third of the "
          "2-symbol ones); reverse/len on all words of <= 2 (thorough 3) symbols, every single byte, every byte after each multi-byte lead; replace/position "
          "on all haystacks <= 3 (thorough 4) x needles <= 2 over {a b é 0xff} and all {a,b}-words of length <= 6 with overlapping needles; substr on "
          "edge integers (MinInt64..MaxInt64) and every offset/length in -2..len+2. RANDOM part: longer LIKE pattern/subject pairs built to match or just miss "
